@@ -72,15 +72,17 @@ class Rej:
 
 
 class Event:
-    __slots__ = ("kind", "node", "desc", "rejs", "loop", "callee")
+    __slots__ = ("kind", "node", "desc", "rejs", "loop", "callee", "tags", "fields")
 
-    def __init__(self, kind, node, desc, rejs=(), loop=False, callee=None):
+    def __init__(self, kind, node, desc, rejs=(), loop=False, callee=None, tags=(), fields=()):
         self.kind = kind  # 'M' | 'C'
         self.node = node
         self.desc = desc
         self.rejs = tuple(rejs)
         self.loop = loop
         self.callee = callee
+        self.tags = frozenset(tags)  # root tags of the objects written (M events)
+        self.fields = frozenset(fields)
 
     def __repr__(self):
         return f"{self.kind}<{self.desc}>"
@@ -177,26 +179,15 @@ class Effects:
             if isinstance(e, (ast.List, ast.Dict, ast.Set, ast.Tuple, ast.ListComp, ast.DictComp, ast.SetComp, ast.GeneratorExp, ast.Constant, ast.JoinedStr)):
                 return True
             if isinstance(e, ast.Call):
-                d = dotted_of(e.func) or ""
-                if d in ("list", "dict", "set", "tuple", "frozenset", "sorted", "collections.Counter", "collections.OrderedDict",
-                         "collections.defaultdict", "collections.deque", "dict.fromkeys", "bytearray", "threading.Lock", "threading.local"):  # fmt: skip
-                    return True
-                if d in ("copy.copy", "copy.deepcopy", "dataclasses.replace"):
-                    return True
-                if isinstance(e.func, ast.Attribute) and e.func.attr in ("copy", "clone", "tolist", "tobytes", "astype", "ravel", "flatten", "reshape", "view"):
-                    return True
-                ct = self.ty.type_of(f, e.func)
-                if any(a[0] == "type" for a in ct):
-                    return True
-                if d.startswith(("np.", "numpy.", "onnx.", "sympy.", "tempfile.", "concurrent.futures", "threading.", "weakref.")):
-                    return True
-                return False
+                return self.fresh_call(f, e)
             if isinstance(e, ast.BinOp):
                 return True
             if isinstance(e, ast.IfExp):
                 return is_fresh_expr(e.body) and is_fresh_expr(e.orelse)
             if isinstance(e, ast.Name):
                 return fresh.get(e.id, False)
+            if isinstance(e, ast.Subscript) and isinstance(e.value, ast.Name) and isinstance(e.slice, ast.Slice):
+                return fresh.get(e.value.id, False)  # a slice of a fresh array/list
             return False
 
         from .index import own_nodes
@@ -223,6 +214,31 @@ class Effects:
         self._fresh_cache[f.key] = out
         return out
 
+    def fresh_call(self, f: FuncInfo, e: ast.Call) -> bool:
+        """The call returns an object created by the call (constructor, copy, external factory)."""
+        d = dotted_of(e.func) or ""
+        if d in ("list", "dict", "set", "tuple", "frozenset", "sorted", "collections.Counter", "collections.OrderedDict",
+                 "collections.defaultdict", "collections.deque", "dict.fromkeys", "bytearray", "threading.Lock", "threading.local",
+                 "defaultdict", "Counter", "OrderedDict", "deque", "copy.copy", "copy.deepcopy", "dataclasses.replace"):  # fmt: skip
+            return True
+        if isinstance(e.func, ast.Attribute) and e.func.attr in ("copy", "clone", "tolist", "tobytes", "astype", "ravel", "flatten", "reshape", "view"):
+            return True
+        ct = self.ty.type_of(f, e.func)
+        if any(a[0] == "type" for a in ct):
+            return True
+        if any(a[0] == "ext" for a in ct) and not any(a[0] in ("func", "bound") for a in ct):
+            full = next(a[1] for a in ct if a[0] == "ext")
+            if full.startswith(("numpy.", "onnx.", "sympy.", "tempfile.", "concurrent.futures", "threading.", "weakref.", "hashlib.", "collections.", "ml_dtypes.")):
+                return True
+        if d.startswith(("np.", "numpy.", "onnx.", "sympy.", "tempfile.", "concurrent.futures", "threading.", "weakref.", "hashlib.")):
+            return True
+        return False
+
+    def is_proto(self, f: FuncInfo, e: ast.expr) -> bool:
+        """Receiver is a protobuf message / repeated field (serializer output, never IR state)."""
+        t = self.ty.type_of(f, e)
+        return bool(t) and all(a[0].startswith("proto") for a in t)
+
     def root_tag(self, f: FuncInfo, e: ast.expr) -> str | None:
         """'self' / 'p<i>' / '*' for non-fresh roots, None if the receiver is fresh."""
         while isinstance(e, (ast.Attribute, ast.Subscript)):
@@ -232,8 +248,7 @@ class Effects:
             d = dotted_of(e.func) or ""
             if isinstance(e.func, ast.Attribute) and e.func.attr in ("values", "items", "keys", "get", "setdefault", "pop"):
                 return self.root_tag(f, e.func.value)
-            ct = self.ty.type_of(f, e.func)
-            if any(a[0] == "type" for a in ct) or d in ("list", "dict", "set", "tuple"):
+            if self.fresh_call(f, e):
                 return None
             return "*"
         if not isinstance(e, ast.Name):
@@ -398,7 +413,7 @@ class Effects:
                 ev.loop = True
             # a loop body runs repeatedly: its events twice, so loop-carried orderings are visible
             evs.extend(inner)
-            evs.extend(Event(x.kind, x.node, x.desc, x.rejs, True, x.callee) for x in inner)
+            evs.extend(Event(x.kind, x.node, x.desc, x.rejs, True, x.callee, x.tags, x.fields) for x in inner)
             return
         if isinstance(e, ast.Lambda):
             return  # body runs when called
@@ -441,12 +456,12 @@ class Effects:
             if setters:
                 self._apply_alternatives(f, stmt, setters, evs, loop, recv=t.value, args=[getattr(stmt, "value", None)])
                 return
-            if t.attr in CACHE_FIELDS:
+            if t.attr in CACHE_FIELDS or self.is_proto(f, t.value):
                 return
             tag = self.root_tag(f, t.value)
             if tag is not None:
                 self._sum[f.key].mods.add((tag, t.attr))
-                evs.append(Event("M", stmt, f"{norm(t)} {'deleted' if delete else 'written'}", loop=loop))
+                evs.append(Event("M", stmt, f"{norm(t)} {'deleted' if delete else 'written'}", loop=loop, tags=[tag], fields=[t.attr]))
             return
         if isinstance(t, ast.Subscript):
             self._emit(f, t.value, evs, loop)
@@ -466,7 +481,7 @@ class Effects:
                 self._apply_alternatives(f, stmt, tg, evs, loop, recv=base, args=[t.slice, getattr(stmt, "value", None)])
                 return
             fld = base.attr if isinstance(base, ast.Attribute) else (base.id if isinstance(base, ast.Name) else "?")
-            if fld in CACHE_FIELDS:
+            if fld in CACHE_FIELDS or self.is_proto(f, base):
                 return
             tag = self.root_tag(f, base)
             if tag is not None:
@@ -474,7 +489,7 @@ class Effects:
                 if delete:
                     rej = Rej(f.key, f"key of `{norm(stmt)}` absent", "KeyError", stmt)
                     evs.append(Event("C", stmt, f"{norm(stmt)} may raise", [rej], loop=loop))
-                evs.append(Event("M", stmt, f"{norm(t)} {'deleted' if delete else 'stored'}", loop=loop))
+                evs.append(Event("M", stmt, f"{norm(t)} {'deleted' if delete else 'stored'}", loop=loop, tags=[tag], fields=[f"{fld}[]"]))
 
     def _call(self, f, call: ast.Call, evs, loop) -> None:
         d = dotted_of(call.func) or ""
@@ -498,7 +513,8 @@ class Effects:
             rt = self.ty.type_of(f, recv)
             is_container = not rt or any(a[0] in ("seq", "dict", "tuple") for a in rt) or any(
                 a[0] == "ext" and a[1].split(".")[-1].rstrip("()") in ("Counter", "OrderedDict", "defaultdict", "deque") for a in rt)
-            if m in CONTAINER_MUTATORS and is_container:
+            if m in CONTAINER_MUTATORS and is_container and not self.is_proto(f, recv) and not (
+                    isinstance(recv, ast.Attribute) and self.is_proto(f, recv.value)):
                 fld = recv.attr if isinstance(recv, ast.Attribute) else (recv.id if isinstance(recv, ast.Name) else "?")
                 tag = self.root_tag(f, recv)
                 if tag is not None and fld not in CACHE_FIELDS:
@@ -507,7 +523,7 @@ class Effects:
                         evs.append(Event("C", call, f"{norm(call)} may raise", [rej], loop=loop))
                     if m not in MULTISET_PRESERVING or True:
                         s.mods.add((tag, f"{fld}.{m}()"))
-                        evs.append(Event("M", call, f"{norm(call)}", loop=loop))
+                        evs.append(Event("M", call, f"{norm(call)}", loop=loop, tags=[tag], fields=[f"{fld}.{m}()"]))
 
     def _apply_alternatives(self, f, site, tg, evs, loop, recv=None, args=(), keywords=()) -> None:
         """Several possible callees at one site (dynamic dispatch) are alternatives, not a sequence:
@@ -526,7 +542,11 @@ class Effects:
                     rejs.setdefault((r.key, r.via), r)
             evs.append(Event("C", site, " | ".join(sorted({e.desc for e in cs}))[:200], list(rejs.values()), loop=loop, callee=cs[0].callee))
         if ms:
-            evs.append(Event("M", site, " | ".join(sorted({e.desc for e in ms}))[:200], loop=loop, callee=ms[0].callee))
+            tags, fields = set(), set()
+            for e in ms:
+                tags |= e.tags
+                fields |= e.fields
+            evs.append(Event("M", site, " | ".join(sorted({e.desc for e in ms}))[:200], loop=loop, callee=ms[0].callee, tags=tags, fields=fields))
 
     def _specialise_targets(self, f, recv, tg):
         if recv is None or not any(g.module.external for g in tg):
@@ -565,6 +585,7 @@ class Effects:
             isinstance(site, ast.Call) and isinstance(site.func, ast.Attribute) and isinstance(site.func.value, ast.Call)
             and dotted_of(site.func.value.func) == "super")
         hit = False
+        new_tags, new_fields = set(), set()
         for tag, fld in list(gs.mods):
             if tag == "self":
                 if recv is None:
@@ -603,9 +624,11 @@ class Effects:
             if new is None:
                 continue
             s.mods.add((new, fld))
+            new_tags.add(new)
+            new_fields.add(fld)
             hit = True
         if hit:
-            evs.append(Event("M", site, f"call {g.local} mutates", loop=loop, callee=g))
+            evs.append(Event("M", site, f"call {g.local} mutates", loop=loop, callee=g, tags=new_tags, fields=new_fields))
 
     # --------------------------------------------------------------- M before C
     def m_before_c(self, f: FuncInfo):
